@@ -7,7 +7,7 @@ SPECDIRS = ("c12",)
 
 INVARIANTS = ("InvIdempotent InvNoWildLeft InvErrOnlyUnspec InvSorted InvExactStar "
               "InvDesignDeviatesOnlyWhereNamed")
-SLICES = ["positions", "functions", "multicall", "sources", "extras", "typepairs", "shadow", "unspecified"]   # spec/c12/Slices_c12.tla
+SLICES = ["positions", "functions", "multicall", "sources", "extras", "typepairs", "shadow", "wide", "unspecified"]   # spec/c12/Slices_c12.tla
 CONSTS = ["Cores", "GroupBys", "Befores", "Afters", "Srcs", "Conds", "Schemas"]
 
 # The seeded slice: VERIF_SEED draws a sub-product from the whole vocabulary (Slices_c12!All*).
@@ -53,7 +53,8 @@ def run(ctx):
     ctx.rule = ("TLC enumerates (SELECT statement, schema) pairs: wildcard kind x position x GROUP BY x extra fields x "
                 "sources x WHERE x schema, inside the sets of each slice (BFS, every pair once). Each statement is "
                 "rendered from tokens, parsed by the real parser and rewritten 8 times by RewriteFields with a "
-                "FieldMapper that builds fresh Go maps on every call. Distinct = distinct (token sequence, schema) "
+                "FieldMapper that builds fresh Go maps on every call, then - after a prelude of other wildcard statements over "
+                "the same schema - 4 more times with a FieldMapper that hands out the SAME maps on every call (a schema cache). Distinct = distinct (token sequence, schema) "
                 "pairs (hash de-duplicated by the driver). Non-trivial = some wildcard or regex expanded to two or "
                 "more columns, so that order matters (counted by the TLA+ judge).")
     ctx.assumptions = ["TLC 1.8 and the CommunityModules Json/CSV/SequencesExt modules",
@@ -99,7 +100,7 @@ def run(ctx):
                             for x in recs[:1]]
     ctx.exhaustive = False
     ctx.coverage_extra["slices"] = [r[0] for r in runs]
-    ctx.coverage_extra["calls_per_pair"] = 8
+    ctx.coverage_extra["calls_per_pair"] = 12
     ctx.coverage_extra["verdict_classes"] = classes
     return vp.case_finder
 
